@@ -136,9 +136,12 @@ def failing_calls(c):
 def run(c):
     identities(c)
     through_the_cache(c)
-    failing_calls(c)
     c01.run(c, inv=INV, bind=(False, True, False), sched_fn=schedules, mut=mutate, cls=classify)
     c.cov["traces_validated_against_impl"] += c.cov.get("identity_traces_validated", 0) + c.cov.get("cache_sessions_validated", 0)
+    # last: its scenarios are prepared with the code under test (pushes and pulls between replicas); on a tree where those
+    # go wrong the preparation stops the driver, and what the other parts found must already be on record
+    failing_calls(c)
+    c.cov["traces_validated_against_impl"] += c.cov.get("failing_calls_validated", 0)
 
 
 def replay(c, rep):
